@@ -101,7 +101,12 @@ def shortest_valid_sequence(rule_name):
     return seq
 
 
-def make_node(rule_name, element=None, child_names=(), content="__canonical__", attributes=None, nested=False, child_prefix=None):
+class NameStr(str):
+    """A str subclass (what lxml's xpath('local-name()') returns, what an enum.StrEnum member is): equal to the plain name."""
+
+
+def make_node(rule_name, element=None, child_names=(), content="__canonical__", attributes=None, nested=False, child_prefix=None,
+              child_ns=None, name_type=str):
     """A node governed by rule_name with valid attributes/content unless overridden.  nested: the node hangs below a
     (foreign) grandparent, as nodes inside documents do; child_prefix: {child position: prefix} for children carrying a prefix."""
     name = element if element is not None else (elements_of(rule_name) or (synthetic_name(rule_name),))[0]
@@ -114,9 +119,12 @@ def make_node(rule_name, element=None, child_names=(), content="__canonical__", 
     for k, v in (valid_attributes(rule_name) if attributes is None else attributes).items():
         n.add_attribute(k, v)
     for i, c in enumerate(child_names):
-        ch = Node(c)
+        ch = Node(c if name_type is str else name_type(c))
         if child_prefix and i in child_prefix:
             ch.prefix = child_prefix[i]
+            if child_ns:
+                # the prefix is bound, on the child itself, to a namespace of another vocabulary (as in an imported document)
+                ch.add_namespace(child_prefix[i], child_ns)
         n.add_child(ch)
     return n
 
